@@ -959,7 +959,7 @@ Qed.
 Lemma dc_init_row k lu labels i : i < length labels ->
   mrow (dc_init k lu labels) i =
   if (0 <=? nthz labels i)%Z then match index_of (nthz labels i) lu with Some c => onehot k c | None => repeat 0%Q k end
-  else repeat (1 # 2)%Q k.
+  else repeat 1%Q k.
 Proof. intros H. unfold mrow, dc_init. rewrite (nth_map_lt _ labels i 0%Z []) by exact H. reflexivity. Qed.
 
 Lemma dc_init_in01 k lu labels : in01m (dc_init k lu labels).
